@@ -29,7 +29,7 @@ CHUNK = 10
 # object family
 
 FEATURES = ["tie", "slur", "tuplet", "grace", "repeat", "volta", "nav", "two_parts", "div_change", "staff2", "pickup", "dirs",
-            "overlap", "chord_unequal"]
+            "overlap", "chord_unequal", "marks", "bare"]
 
 
 def score_spec(feats):
@@ -104,6 +104,22 @@ def score_spec(feats):
         objs.append({"k": "wedge", "s": b1, "e": b2, "dir": "+", "staff": 1})
         objs.append({"k": "words", "s": b0, "text": "dolce", "staff": 1})
         objs.append({"k": "tempo", "s": b0, "bpm": 90, "unit": "q"})
+    if "marks" in f:
+        # every kind of marking the exporters turn into attribute lists: articulations, ornaments, fingering, fermata
+        for o in objs:
+            if o.get("id") == "n1":
+                o["art"] = ["staccato", "accent"]
+                o["orn"] = ["trill"]
+                o["fing"] = 2
+            if o.get("id") == "n2":
+                o["orn"] = ["mordent"]
+        objs.append({"k": "fermata", "s": b0, "ref": "n1"})
+    if "bare" in f:
+        # a part built by hand: no voice and no staff on its notes and rests
+        for o in objs:
+            if o["k"] in ("note", "rest", "grace") and o.get("staff") == 1:
+                o["voice"] = None
+                o["staff"] = None
     divs = [[0, d]]
     p1 = {"id": "P1", "name": "Piano", "divs": divs, "objs": objs}
     if "div_change" in f:
@@ -655,7 +671,7 @@ def feature_sets(tier):
     return sets, pairs
 
 
-PAIR_BASES = [["tie", "slur", "grace", "dirs", "overlap", "chord_unequal"], ["repeat", "tuplet"], ["volta", "two_parts", "pickup"], ["nav", "repeat", "staff2"],
+PAIR_BASES = [["tie", "slur", "grace", "dirs", "overlap", "chord_unequal", "marks"], ["repeat", "tuplet"], ["volta", "two_parts", "pickup"], ["nav", "repeat", "staff2"],
               ["div_change", "tie", "tuplet"], ["two_parts", "div_change", "grace", "volta"]]
 
 
@@ -677,9 +693,9 @@ def spaces(tier, seed):
                     "%d feature-rich scores x all ordered pairs of distinct entry points (%d)" % (len(bases), len(names_s))))
     sp.append(Space("perf-sequences", [dict(kind="perf", variant=v, seq=[a, b]) for v in ("plain", "pedal", "two") for a in names_p for b in names_p], True,
                     "3 performances x all ordered pairs (incl. equal) of %d entry points" % len(names_p)))
-    mf = [["tie"], ["tie", "grace", "pickup"], ["staff2", "dirs"]]
+    mf = [["tie"], ["tie", "grace", "pickup"], ["staff2", "dirs"], ["marks"], ["marks", "bare"], ["marks", "bare", "grace"]]
     sp.append(Space("match-sequences", [dict(kind="match", feats=f, variant=v, seq=[a, b]) for f in mf for v in ("plain", "pedal") for a in names_m for b in names_m], True,
-                    "3 scores x 2 performances x all ordered pairs of %d entry points" % len(names_m)))
+                    "6 scores x 2 performances x all ordered pairs of %d entry points" % len(names_m)))
     it = []
     for kind in ("score", "perf"):
         for n, k in ((1, 2), (2, 2), (3, 2), (1, 3), (2, 3)):
